@@ -423,7 +423,9 @@ class GeoPolygon(PolygonBase, SimpleShapeMixin):
         return self.outline
 
     def circumscribing_circle(self) -> 'GeoCircle':
-        ctr, rad = circumscribing_circle_for_polygon(self.outline[:-1], [])
+        # A position listed more than once would hand the three-point case a degenerate triangle
+        points = list({(x.longitude, x.latitude): x for x in self.outline[:-1]}.values())
+        ctr, rad = circumscribing_circle_for_polygon(points, [])
         return GeoCircle(cast(Coordinate, ctr), cast(float, rad), dt=self.dt)
 
     def contains_coordinate(self, coord: Coordinate) -> bool:
